@@ -169,7 +169,7 @@ theorem aggEval_eq_filter {t out : List Cell} {q : Int} {s : String} {origin : D
     (hs : t.Pairwise (fun a b => Cell.le a b)) (hk : kindsConsistent t = true)
     (h : aggregateEval t (some (q, s)) origin = .ok out) :
     ∃ q' u first last grid, standardizeResolution q s = .ok (q', u) ∧
-      minDate (t.map (·.ev)) = some first ∧ maxDate (t.map (·.ev)) = some last ∧
+      minDate (t.map (·.ev)) = some first ∧ maxDateAgg (t.map (·.ev)) = some last ∧
       validEvals q' u origin first last = some grid ∧
       out = t.filter fun c => grid.contains c.ev := by
   unfold aggregateEval at h
